@@ -284,8 +284,8 @@ func (f *File) Close() error {
 	return f.f.Close()
 }
 
-func (f *File) Stat() (fs.FileInfo, error)               { return f.f.Stat() }
-func (f *File) Readdir(n int) ([]fs.FileInfo, error)     { return f.f.Readdir(n) }
-func (f *File) ReadDir(n int) ([]fs.DirEntry, error)     { return f.f.ReadDir(n) }
-func (f *File) Readdirnames(n int) ([]string, error)     { return f.f.Readdirnames(n) }
-func (f *File) Chmod(mode FileMode) error                { return f.f.Chmod(mode) }
+func (f *File) Stat() (fs.FileInfo, error)           { return f.f.Stat() }
+func (f *File) Readdir(n int) ([]fs.FileInfo, error) { return f.f.Readdir(n) }
+func (f *File) ReadDir(n int) ([]fs.DirEntry, error) { return f.f.ReadDir(n) }
+func (f *File) Readdirnames(n int) ([]string, error) { return f.f.Readdirnames(n) }
+func (f *File) Chmod(mode FileMode) error            { return f.f.Chmod(mode) }
